@@ -2,10 +2,15 @@ theorem d_spawn (s : State) (op : Op) (hA : InvA s) (hB : InvB s) (hC : InvC s) 
     InvD (spawn s op) := by
   unfold spawn
   constructor
-  · intro hcl
-    obtain ⟨t, ht, hp⟩ := hD.progress hcl
-    refine ⟨t, Nat.lt_succ_of_lt ht, ?_⟩
-    have hne : t ≠ s.nThr := Nat.ne_of_lt ht
-    simp only [upd, hne, if_false]
-    exact hp
+  · intro t ht hop
+    by_cases e : t = s.nThr
+    · subst e
+      simp only [upd, if_true] at hop ⊢
+      subst hop
+      simp [CloseRun, firstPc]
+    · have ht' : t < s.nThr := by
+        have : t < s.nThr + 1 := ht
+        omega
+      simp only [upd, e, if_false] at hop ⊢
+      exact hD.thr t ht' hop
   · exact hD.close_done
